@@ -298,9 +298,11 @@ class ApproxZipfDistribution
       const IntType n) const  //
       -> double
   {
-    if (pow_ == 0.0) return (1 + log(n) + log(n + 1)) * 0.5;          // NOLINT
+    // NOTE: n + 1 overflows IntType when n is its maximum value, so add in double
+    const auto x = static_cast<double>(n);
+    if (pow_ == 0.0) return (1 + log(x) + log(x + 1.0)) * 0.5;  // NOLINT
     // NOTE: pow(x, p) - 1 loses all significant digits when p is close to zero, so use expm1
-    return (expm1(pow_ * log(n + 1)) + expm1(pow_ * log(n))) / (2 * pow_) + 0.5;  // NOLINT
+    return (expm1(pow_ * log(x + 1.0)) + expm1(pow_ * log(x))) / (2 * pow_) + 0.5;  // NOLINT
   }
 
   /*############################################################################
